@@ -455,8 +455,12 @@ func fixedCases() []caseT {
 	rfc := fmtT{Kind: "rfc"}
 	japi := fmtT{Kind: "jsonapi"}
 	simple := fmtT{Kind: "simple"}
+	// first of all a burst of error responses formatted truly in parallel (16 goroutines × 40 requests, RFC 9457 with
+	// generated error ids, then JSON:API): shared state of the formatters that is not safe for concurrent use shows
+	// here, or in everything that follows
+	burst := []caseT{{P: &pcaseT{Workers: 16, PerWorker: 40}}, {P: &pcaseT{Opts: []optT{{F: &japi}}, Workers: 16, PerWorker: 20}}}
 	neg := []optT{{IsM: true, M: []entryT{{"application/json", simple}, {"application/vnd.api+json", japi}}}, {D: sp("application/json")}}
-	var out []caseT
+	out := burst
 	add := func(a acaseT) { out = append(out, caseT{A: &a}) }
 	// K06: NotFound(err) with RFC 9457 (default and explicit), JSON:API, Simple
 	add(acaseT{Wire: "r", Len: 2, Pos: 1, Call: callT{Kind: "helper", Helper: 0, Err: boom}})
